@@ -12,7 +12,7 @@ def main(run):
                 '3 namespaces x 2 none_is_leaf x 4 types, get(cls), get()) are validated by TLC (TraceRegistry) against the model state; '
                 'non-trivial = histories containing a failing call after a successful registration')
     L = 2 if quick else 3
-    hs = R.exhaustive_histories(run, 'reg', L)
+    hs = R.exhaustive_histories(run, 'reg', L, cap=None if quick else 60000, seed=run.seed)
     run.extra['exhaustive_history_length'] = L
     sim = R.simulated_histories(run, 'reg', 300 if quick else 3000, 8, run.seed)
     rnd = R.random_histories('reg', 300 if quick else 5000, 30, run.seed)
